@@ -6,10 +6,13 @@
   model and replayed on the implementation by the monitor.  [B] `complete_expr`: completeness of the
   parser w.r.t. the levelled derivation relation for ALL expressions (unbounded; SqLemmas/ParseComplete).
   `complete`: the same for whole programs (statements, separators) — every program the relation derives is
-  accepted by `parseTokens` with exactly the derived tree.  Pending: the converse `sound`.
+  accepted by `parseTokens` with exactly the derived tree.  `sound_*`: the converse — whatever the parser
+  accepts (with any fuel) the relation derives, with exactly the returned tree (SqLemmas/ParseSound).  Hence
+  `parser_accepts_exactly_the_grammar`: parseTokens ts = ok (code out) ↔ RCode [] ts out.
 -/
 import Sq.Proto
 import SqLemmas.ParseComplete
+import SqLemmas.ParseSound
 namespace SqProps.C06
 open Sq
 
@@ -82,6 +85,34 @@ theorem complete_stmt {ts : List Token} {s : Option Op} {nxt : LA} (h : RStmt ts
     parser — with the fuel `parseTokens` itself supplies — and yields exactly the derived tree -/
 theorem complete_program {ts : List Token} {out : List Op} (h : RCode [] ts out) :
     parseTokens ts = .ok (.code out) := complete h
+
+/-- **sound** (expressions): whatever `pExpr` returns — any fuel, any context, any continuation — is a derivation
+    of the consumed prefix, with the look-ahead the parser actually saw -/
+theorem sound_expr {f m : Nat} {a : Assoc} {ts : List Token} {t : Op} {b : Bool} {tl : List Token}
+    (h : pExpr f m a ts = .ok ((t, b), tl)) : ∃ ts0, ts = ts0 ++ tl ∧ RExpr m a ts0 t b (peekTy tl) := sExpr h
+
+/-- **sound** (programs): an accepted token list is derivable, with exactly the returned tree -/
+theorem sound_program {ts : List Token} {tree : Op} (h : parseTokens ts = .ok tree) :
+    ∃ out, tree = .code out ∧ RCode [] ts out := sound h
+
+/-- **the parser accepts exactly the levelled grammar, with exactly the derived tree**: for every token list
+    and every tree -/
+theorem parser_accepts_exactly_the_grammar (ts : List Token) (out : List Op) :
+    parseTokens ts = .ok (.code out) ↔ RCode [] ts out := parse_iff ts out
+
+/-- rejection is exactly non-derivability: the parser reports an error iff the relation derives no program -/
+theorem rejected_iff_not_derivable (ts : List Token) :
+    (∃ e, parseTokens ts = .error e) ↔ ¬ ∃ out, RCode [] ts out := by
+  constructor
+  · rintro ⟨e, he⟩ ⟨out, hr⟩
+    rw [complete hr] at he
+    cases he
+  · intro hn
+    cases hp : parseTokens ts with
+    | error e => exact ⟨e, rfl⟩
+    | ok tree =>
+      obtain ⟨out, _, hr⟩ := sound hp
+      exact absurd ⟨out, hr⟩ hn
 
 /-- **the tree is unique**: the levelled grammar is unambiguous — two derivations of the same token list as a
     program derive the same tree (both are what the deterministic parser returns) -/
